@@ -214,6 +214,46 @@ def op_pipeline(data, serialize_kw, repeat=False):
     return fn
 
 
+def op_reuse(data):
+    """what a caller does between two calls must not leak into the second: the result depends on the input *as it
+    is now* - an unchanged tree converts to an equal model even after the caller edited the earlier model, an
+    edited tree converts to the edited model, an edited model is written as edited"""
+    def fn():
+        from ofxtools.Parser import OFXTree
+
+        def fresh():
+            t = OFXTree()
+            t.parse(io.BytesIO(data))
+            return t
+        t = fresh()
+        inst = t.convert()
+        m1 = dump_model(inst)
+        tree1 = dump_tree(t.getroot())
+        # the caller edits the model it was given
+        inst.signonmsgsrsv1.sonrs.language = "FRA"
+        if dump_tree(t.getroot()) != tree1:
+            raise K1("editing the converted model changed the parsed tree it came from")
+        if dump_model(t.convert()) != m1:
+            raise K2("the unchanged tree converts to a different model after the caller edited the earlier result")
+        # the caller edits the tree in place
+        t.getroot().find(".//LANGUAGE").text = "SPA"
+        ref = fresh()
+        ref.getroot().find(".//LANGUAGE").text = "SPA"
+        want = dump_model(ref.convert())
+        got = dump_model(t.convert())
+        if got != want:
+            raise K2("after an in-place edit of the tree, convert() does not give the model of the tree as it is now")
+        # writing an edited model
+        inst3 = t.convert()
+        out1 = dump_tree(inst3.to_etree())
+        inst3.signonmsgsrsv1.sonrs.language = "ITA"
+        out2 = dump_tree(inst3.to_etree())
+        if json.dumps(out2) != json.dumps(out1).replace("SPA", "ITA"):
+            raise K2("to_etree() after an edit of the model does not write the model as it is now")
+        return {"model": got, "out": out2}
+    return fn
+
+
 def op_header(data):
     def fn():
         from ofxtools.header import parse_header
@@ -302,6 +342,8 @@ def build_ops():
     ops.append(("pipeline-rep:stmt:v1u", op_pipeline(_file(docs["stmt"], 102, "v1u", False), {"version": 102, "close_elements": False}, repeat=True)))
     ops.append(("pipeline-rep:invest:v2pretty", op_pipeline(_file(docs["invest"], 203, "v2", True), {"version": 220, "prettyprint": True}, repeat=True)))
     ops.append(("pipeline-rep:ext:v1c", op_pipeline(_file(docs["ext"], 160, "v1c", False), {"version": 103, "prettyprint": True, "close_elements": True}, repeat=True)))
+    ops.append(("reuse:stmt:v1u", op_reuse(_file(docs["stmt"], 102, "v1u", False))))
+    ops.append(("reuse:invest:v2", op_reuse(_file(docs["invest"], 203, "v2", True))))
     for nm in ("bad_enum", "missing_required", "out_of_order"):
         ops.append((f"pipeline:{nm}", op_pipeline(_file(docs[nm], 102, "v1u", False), {})))
     ops.append(("header:v1", op_header(_file(docs["stmt"], 102, "v1u", False))))
